@@ -215,7 +215,7 @@ theorem reader_ordinals_agree (c : Chunk) (ops : List ROp) :
 /-- non-vacuity: a seek into the middle, a cached-page shortcut and a lazy dictionary read -/
 example :
     let c : Chunk := { rg := 2, col := 1, hasDict := true, npages := 5 }
-    ((rrun c [.seekIndexed 3, .step, .seekIndexed 1, .seekIndexed 3, .serveLast, .step, .readDict, .seekNoIndex, .step]).log.map (·.slot)) =
+    ((rrun c [.seekIndexed 3, .step, .seekIndexed 3, .serveLast, .seekIndexed 1, .step, .readDict, .seekNoIndex, .step]).log.map (·.slot)) =
       [.dataPageHeader 2 1 3, .dataPage 2 1 3, .dataPageHeader 2 1 1, .dataPage 2 1 1,
        .dictPageHeader 2 1, .dictPage 2 1, .dataPageHeader 2 1 0, .dataPage 2 1 0] := by decide
 
